@@ -154,7 +154,7 @@ theorem delete_PN (c : Ctx) (hpf : PF c) (h : PND c.seg) : OutcomeP (fun c => PN
         unfold Seg.detach
         exact (unparent_same _ i).tr (detachChildren_same _ _ _)
       show PND (_ : Ctx).seg
-      simp only [setIs_seg, withSeg_seg]
+      simp only [backOnto_seg, setIs_seg, withSeg_seg]
       intro j p hjr hjp
       simp only [addGlyphs_get] at hjp ⊢
       have hjr2 : Real (((c.seg.upd i fun sl => sl.setDeleted true).unlink i).detach i) j := hjr
@@ -608,7 +608,7 @@ theorem runPass_PND (p : PassT) (c : Ctx) (fuel : Nat) (h : WF c.seg) (hF : Fore
         have j0 : JO (c.restartAt s0) l (some s0) :=
           JO.mk' hl hc (isok_of_mem hs0l) (fun x hx => next_mem hl hs0l x hx) hal
         rw [noteLoop_seg]
-        exact ruleLoop_PND p fuel _ s0 _ 0 j0 (show Forest (c.restartAt s0).seg from hF) (show PND (c.restartAt s0).seg from hP) hr
+        exact ruleLoop_PND p _ _ s0 _ 0 j0 (show Forest (c.restartAt s0).seg from hF) (show PND (c.restartAt s0).seg from hP) hr
 
 theorem runRange_PND (passes : Array PassT) (c : Ctx) (lo hi fuel : Nat) (h : WF c.seg) (hF : Forest c.seg) (hP : PND c.seg) {c' : Ctx}
     (e : runRange passes c lo hi fuel = .ok (some c')) : PND c'.seg := by
